@@ -49,7 +49,9 @@ def gen_scenario(r, i):
         script = CHILD[kind][1] + (",fork_ignorer=1" if forker else "")
         state = r.choice(["running", "running", "running", "never-started", "mid-restart", "mid-stop", "deleted", "cloned", "queued-controls", "finished"])
         t_create = tq if same_action else 30
-        acts = [(t_create, {"job": j, "op": "create", "script": script, "grouped": grouped})]
+        # a command in a session of its own (setsid) is killed on drop like any other
+        session = (not grouped) and r.random() < 0.3
+        acts = [(t_create, {"job": j, "op": "create", "script": script, "grouped": grouped, "session": session})]
         mops = []      # model ops (job API calls) with their times
         def add(t, op, **kw):
             acts.append((t, dict({"job": j, "op": op}, **kw)))
@@ -101,11 +103,18 @@ def _same_action_cloned(manner):
             "jobs": [{"kind": 0, "grouped": False, "forker": False, "state": "cloned", "mops": [{"at": 400, "op": "start", "yield": False}]}]}
 
 
+def _session_abort():
+    return {"steps": [{"at_ms": 30, "acts": [{"job": 0, "op": "create", "script": CHILD[2][1], "grouped": False, "session": True}, {"job": 0, "op": "start"}]},
+                      {"at_ms": 400, "acts": [], "quit": {"manner": "abort"}}],
+            "wait_ms": 2500, "settle_ms": 200, "tq": 400, "manner": "abort", "qsig": "Terminate", "qgrace": 100, "same_action": False,
+            "jobs": [{"kind": 2, "grouped": False, "forker": False, "state": "running", "mops": [{"at": 30, "op": "start", "yield": True}]}]}
+
+
 SCEN_CORPUS = [
     # several jobs whose commands all ignore the signal: they are stopped concurrently, one grace period in total
     _three_ignoring(400),
     # a job created and started in the action that quits, its handle cloned and kept elsewhere
-    _same_action_cloned("graceful"), _same_action_cloned("abort"),
+    _same_action_cloned("graceful"), _same_action_cloned("abort"), _session_abort(),
     # known finding: grouped command, leader exits on the signal, another member ignores it
     {"steps": [{"at_ms": 30, "acts": [{"job": 0, "op": "create", "script": CHILD[0][1] + ",fork_ignorer=1", "grouped": True}, {"job": 0, "op": "start"}]},
                {"at_ms": 400, "acts": [], "quit": {"manner": "graceful", "sig": "Terminate", "grace_ms": 250}}],
@@ -128,7 +137,13 @@ def run_parallel(binname, sub, cases, tag, procs=16):
             return 0, [], ""
         f = os.path.join(d, f"cases_{k}.jsonl")
         write_jsonl(f, chunks[k])
-        return run_harness(binname, [sub, f, os.path.join(d, f"fs{k}")], timeout=900)
+        objs = []
+        while len(objs) < len(chunks[k]):          # (h_cli onbusy) a hung case ends the process: resume after it
+            rc, part, txt = run_harness(binname, [sub, f, os.path.join(d, f"fs{k}"), str(len(objs))], timeout=900)
+            if rc != 0 or not part or (len(objs) + len(part) < len(chunks[k]) and not part[-1].get("hung")):
+                return rc or 1, objs + part, txt
+            objs += part
+        return 0, objs, ""
     out = {}
     with ThreadPoolExecutor(max_workers=procs) as ex:
         for k, (rc, objs, txt) in enumerate(ex.map(one, range(procs))):
@@ -195,6 +210,10 @@ class C08(Prop):
             brief = {"script": case["script"], "ops": case["ops"]}
             if o.get("harness_panic"):
                 c.errors.append("harness panicked on " + json.dumps(case)[:300])
+                continue
+            if o.get("hung"):
+                c.failing.append({"case": brief, "impl": "no progress for 10 s of real time with the clock paused",
+                                  "clause": "C08_graceful_job_bounded: the job task spins without making progress after the quit"})
                 continue
             if ok != "T":
                 c.disagreements.append({"case": brief, "model": b, "what": "eager scheduler exceeded the proved bound (model evaluation)"})
@@ -284,6 +303,10 @@ class C08(Prop):
             brief = {"args": cc["args"], "event": cc["events"][0], "child": cc["child_script"]}
             if "error" in o:
                 c.errors.append(f"h_cli: {o['error']}")
+                continue
+            if o.get("hung"):
+                c.failing.append({"case": brief, "impl": "the instance made no progress for 10 s past the end of the scenario",
+                                  "clause": "C08_cli_signal_quits: interrupt/terminate/EOF did not shut the CLI down (the instance stalled)"})
                 continue
             sent = [s for s in o["sent"] if s["k"] != "startup"]
             dur = o["t_end"] - sent[0]["t"] if sent else None
